@@ -248,3 +248,258 @@ pub fn programs() -> Vec<(String, Program)> {
     }
     out
 }
+
+// ---------------------------------------------------------------------------
+// hand-built registries (JSON), shaped entry by entry as scale-info 2.11.5 shapes them
+// (src/impls.rs): the prelude table of typegen/src/typegen/type_path.rs:196-218.
+//
+// Reachable from a scale-info registry (the impl gives the entry a one-segment path):
+//   Option, Result, Cow (only when nested directly in a Cow: finding F16), BTreeMap, BTreeSet,
+//   BinaryHeap (composite, one unnamed field [T]), Range, RangeInclusive,
+//   NonZero{I,U}{8,16,32,64,128} (composite, one unnamed field of the inner primitive).
+// NOT reachable (the arm exists, scale-info never produces the path):
+//   VecDeque (its TypeInfo identity is [T]: a path-less sequence), LinkedList (no TypeInfo impl),
+//   NonZeroIsize / NonZeroUsize (no impl).  They are fed as synthetic entries - a legal
+//   PortableRegistry - so that the arm runs at least once.
+
+struct Jb {
+    types: Vec<serde_json::Value>,
+}
+
+impl Jb {
+    fn reserve(&mut self) -> u32 {
+        self.types.push(serde_json::Value::Null);
+        (self.types.len() - 1) as u32
+    }
+    fn set(&mut self, id: u32, path: &[&str], params: serde_json::Value, def: serde_json::Value, docs: &[&str]) {
+        self.types[id as usize] = serde_json::json!({"id": id, "type": {"path": path, "params": params, "def": def, "docs": docs}});
+    }
+    fn add(&mut self, path: &[&str], params: serde_json::Value, def: serde_json::Value) -> u32 {
+        let id = self.reserve();
+        self.set(id, path, params, def, &[]);
+        id
+    }
+    fn prim(&mut self, p: &str) -> u32 {
+        for (i, t) in self.types.iter().enumerate() {
+            if t["type"]["def"]["primitive"] == serde_json::json!(p) {
+                return i as u32;
+            }
+        }
+        self.add(&[], serde_json::json!([]), serde_json::json!({"primitive": p}))
+    }
+    fn seq(&mut self, e: u32) -> u32 {
+        for (i, t) in self.types.iter().enumerate() {
+            if t["type"]["def"]["sequence"]["type"] == serde_json::json!(e) {
+                return i as u32;
+            }
+        }
+        self.add(&[], serde_json::json!([]), serde_json::json!({"sequence": {"type": e}}))
+    }
+    fn tuple(&mut self, es: &[u32]) -> u32 {
+        self.add(&[], serde_json::json!([]), serde_json::json!({"tuple": es}))
+    }
+    fn array(&mut self, n: u32, e: u32) -> u32 {
+        self.add(&[], serde_json::json!([]), serde_json::json!({"array": {"len": n, "type": e}}))
+    }
+    /// `Name<T>` as a composite with one unnamed field `[T]` (BTreeSet, BinaryHeap; synthetic VecDeque, LinkedList)
+    fn coll(&mut self, name: &str, e: u32) -> u32 {
+        let id = self.reserve();
+        let s = self.seq(e);
+        self.set(id, &[name], serde_json::json!([{"name": "T", "type": e}]),
+                 serde_json::json!({"composite": {"fields": [{"type": s, "docs": []}]}}), &[]);
+        id
+    }
+    fn map(&mut self, k: u32, v: u32) -> u32 {
+        let id = self.reserve();
+        let t = self.tuple(&[k, v]);
+        let s = self.seq(t);
+        self.set(id, &["BTreeMap"], serde_json::json!([{"name": "K", "type": k}, {"name": "V", "type": v}]),
+                 serde_json::json!({"composite": {"fields": [{"type": s, "docs": []}]}}), &[]);
+        id
+    }
+    fn option(&mut self, e: u32) -> u32 {
+        self.add(&["Option"], serde_json::json!([{"name": "T", "type": e}]), serde_json::json!({"variant": {"variants": [
+            {"name": "None", "index": 0, "fields": [], "docs": []},
+            {"name": "Some", "index": 1, "fields": [{"type": e, "docs": []}], "docs": []}]}}))
+    }
+    fn result(&mut self, x: u32, y: u32) -> u32 {
+        self.add(&["Result"], serde_json::json!([{"name": "T", "type": x}, {"name": "E", "type": y}]), serde_json::json!({"variant": {"variants": [
+            {"name": "Ok", "index": 0, "fields": [{"type": x, "docs": []}], "docs": []},
+            {"name": "Err", "index": 1, "fields": [{"type": y, "docs": []}], "docs": []}]}}))
+    }
+    fn cow(&mut self, e: u32) -> u32 {
+        self.add(&["Cow"], serde_json::json!([{"name": "T", "type": e}]),
+                 serde_json::json!({"composite": {"fields": [{"type": e, "docs": []}]}}))
+    }
+    fn range(&mut self, name: &str, e: u32) -> u32 {
+        self.add(&[name], serde_json::json!([{"name": "Idx", "type": e}]), serde_json::json!({"composite": {"fields": [
+            {"name": "start", "type": e, "typeName": "Idx", "docs": []},
+            {"name": "end", "type": e, "typeName": "Idx", "docs": []}]}}))
+    }
+    fn nonzero(&mut self, name: &str, inner: &str) -> u32 {
+        let p = self.prim(inner);
+        self.add(&[name], serde_json::json!([]), serde_json::json!({"composite": {"fields": [{"type": p, "docs": []}]}}))
+    }
+}
+
+fn jfield(name: Option<&str>, ty: u32, tn: &str) -> serde_json::Value {
+    let mut f = serde_json::json!({"type": ty, "typeName": tn, "docs": []});
+    if let Some(n) = name {
+        f["name"] = serde_json::json!(n);
+    }
+    f
+}
+
+pub const NONZERO: [(&str, &str); 12] = [
+    ("NonZeroI8", "i8"), ("NonZeroU8", "u8"), ("NonZeroI16", "i16"), ("NonZeroU16", "u16"),
+    ("NonZeroI32", "i32"), ("NonZeroU32", "u32"), ("NonZeroI64", "i64"), ("NonZeroU64", "u64"),
+    ("NonZeroI128", "i128"), ("NonZeroU128", "u128"),
+    // synthetic (scale-info has no impl for the pointer-sized ones)
+    ("NonZeroIsize", "i64"), ("NonZeroUsize", "u64"),
+];
+
+/// (name, registry JSON).  `prelude`: every arm of the prelude table as the type of a field, nested
+/// in Vec / Option / tuple / array / map / Box, under a type parameter, as a generic argument of a
+/// generated type, and (every entry) at top level through `resolve_type_path`; recursion through
+/// every heap collection.  `prelude-min`: one struct with one field per heap-allocated arm (the
+/// small registry of the C09 switch cube).
+pub fn json_registries() -> Vec<(String, serde_json::Value)> {
+    use serde_json::json;
+    let mut out = vec![];
+    {
+        let mut b = Jb { types: vec![] };
+        let u8t = b.prim("u8");
+        let u16t = b.prim("u16");
+        let u32t = b.prim("u32");
+        let boolt = b.prim("bool");
+        let strt = b.prim("str");
+        // --- p::All: one named field per table arm
+        let all = b.reserve();
+        let mut fields = vec![];
+        let opt = b.option(u8t);
+        fields.push(jfield(Some("option"), opt, "Option<u8>"));
+        let res = b.result(u8t, boolt);
+        fields.push(jfield(Some("result"), res, "Result<u8, bool>"));
+        // the `Cow` arm is only reached by a Cow nested directly in a Cow (F16)
+        let cow1 = b.cow(strt);
+        let cow2 = b.cow(cow1);
+        fields.push(jfield(Some("cow_cow"), cow2, "Cow<'static, Cow<'static, str>>"));
+        let m = b.map(u32t, strt);
+        fields.push(jfield(Some("btree_map"), m, "BTreeMap<u32, String>"));
+        let s = b.coll("BTreeSet", u16t);
+        fields.push(jfield(Some("btree_set"), s, "BTreeSet<u16>"));
+        let heap = b.coll("BinaryHeap", u32t);
+        fields.push(jfield(Some("binary_heap"), heap, "BinaryHeap<u32>"));
+        let dq = b.coll("VecDeque", u8t); // synthetic
+        fields.push(jfield(Some("vec_deque"), dq, "VecDeque<u8>"));
+        let ll = b.coll("LinkedList", u8t); // synthetic
+        fields.push(jfield(Some("linked_list"), ll, "LinkedList<u8>"));
+        let r = b.range("Range", u32t);
+        fields.push(jfield(Some("range"), r, "Range<u32>"));
+        let ri = b.range("RangeInclusive", u32t);
+        fields.push(jfield(Some("range_inclusive"), ri, "RangeInclusive<u32>"));
+        let mut nz_ids = vec![];
+        for (n, inner) in NONZERO {
+            let id = b.nonzero(n, inner);
+            nz_ids.push(id);
+            fields.push(jfield(Some(&format!("f_{}", n.to_lowercase())), id, n));
+        }
+        b.set(all, &["p", "All"], json!([]), json!({"composite": {"fields": fields}}), &["one field per prelude type", " second \"line\""]);
+        // --- p::Nested: the heap arms in nested positions, unnamed fields
+        let nested = b.reserve();
+        let v_heap = b.seq(heap);
+        let o_ll = b.option(ll);
+        let tup = b.tuple(&[dq, ri]);
+        let arr = b.array(2, nz_ids[5]);
+        let m2 = b.map(u32t, heap);
+        let r_heap = b.result(heap, ll);
+        b.set(nested, &["p", "Nested"], json!([]), json!({"composite": {"fields": [
+            jfield(None, v_heap, "Vec<BinaryHeap<u32>>"),
+            jfield(None, o_ll, "Option<LinkedList<u8>>"),
+            jfield(None, tup, "(VecDeque<u8>, RangeInclusive<u32>)"),
+            jfield(None, arr, "[NonZeroU32; 2]"),
+            jfield(None, m2, "BTreeMap<u32, BinaryHeap<u32>>"),
+            jfield(None, heap, "Box<BinaryHeap<u32>>"),
+            jfield(None, r_heap, "Result<BinaryHeap<u32>, LinkedList<u8>>"),
+        ]}}), &[]);
+        // --- p::Gen<T>: the parameter underneath prelude types, two instantiations
+        for arg in [u16t, nz_ids[3]] {
+            let g = b.reserve();
+            let h = b.coll("BinaryHeap", arg);
+            let d = b.coll("VecDeque", arg);
+            let l = b.coll("LinkedList", arg);
+            let r = b.range("RangeInclusive", arg);
+            let o = b.option(arg);
+            b.set(g, &["p", "Gen"], json!([{"name": "T", "type": arg}]), json!({"composite": {"fields": [
+                jfield(Some("h"), h, "BinaryHeap<T>"),
+                jfield(Some("d"), d, "VecDeque<T>"),
+                jfield(Some("l"), l, "LinkedList<T>"),
+                jfield(Some("r"), r, "RangeInclusive<T>"),
+                jfield(Some("o"), o, "Option<T>"),
+            ]}}), &[]);
+        }
+        // --- p::Holder<T> { v: T } instantiated with prelude types (generic arguments of a generated type)
+        let mut holders = vec![];
+        for arg in [heap, ll, nz_ids[0]] {
+            let hid = b.add(&["p", "Holder"], json!([{"name": "T", "type": arg}]),
+                            json!({"composite": {"fields": [jfield(Some("v"), arg, "T")]}}));
+            holders.push(hid);
+        }
+        // --- p::Rec: recursion through every heap collection (and only through them)
+        let rec = b.reserve();
+        let rh = b.coll("BinaryHeap", rec);
+        let rd = b.coll("VecDeque", rec);
+        let rl = b.coll("LinkedList", rec);
+        let rm = b.map(u8t, rec);
+        let rs = b.coll("BTreeSet", rec);
+        let ro = b.option(rec);
+        b.set(rec, &["p", "Rec"], json!([]), json!({"composite": {"fields": [
+            jfield(Some("heap"), rh, "BinaryHeap<Rec>"),
+            jfield(Some("deque"), rd, "VecDeque<Rec>"),
+            jfield(Some("list"), rl, "LinkedList<Rec>"),
+            jfield(Some("map"), rm, "BTreeMap<u8, Rec>"),
+            jfield(Some("set"), rs, "BTreeSet<Rec>"),
+            jfield(Some("parent"), ro, "Option<Box<Rec>>"),
+        ]}}), &["recursive through collections only"]);
+        // --- p::E: prelude types in variant fields, docs on variants, users of the items above
+        let e = b.reserve();
+        b.set(e, &["p", "E"], json!([]), json!({"variant": {"variants": [
+            {"name": "Heap", "index": 0, "docs": ["a heap"], "fields": [jfield(None, heap, "BinaryHeap<u32>"), jfield(None, dq, "VecDeque<u8>")]},
+            {"name": "Named", "index": 5, "docs": [], "fields": [jfield(Some("list"), ll, "LinkedList<u8>"), jfield(Some("nz"), nz_ids[11], "NonZeroUsize"),
+                                                                jfield(Some("range"), ri, "RangeInclusive<u32>")]},
+            {"name": "Items", "index": 9, "docs": ["uses", "the items"], "fields": [jfield(None, all, "All"), jfield(None, nested, "Nested"),
+                                                                                   jfield(None, holders[0], "Holder<BinaryHeap<u32>>"),
+                                                                                   jfield(None, holders[1], "Holder<LinkedList<u8>>"),
+                                                                                   jfield(None, holders[2], "Holder<NonZeroI8>"),
+                                                                                   jfield(None, rec, "Box<Rec>")]},
+        ]}}), &["enum doc"]);
+        out.push(("prelude".to_string(), json!({"types": b.types})));
+    }
+    {
+        let mut b = Jb { types: vec![] };
+        let u8t = b.prim("u8");
+        let strt = b.prim("str");
+        let s = b.reserve();
+        let m = b.map(u8t, strt);
+        let set = b.coll("BTreeSet", u8t);
+        let heap = b.coll("BinaryHeap", u8t);
+        let dq = b.coll("VecDeque", u8t);
+        let ll = b.coll("LinkedList", u8t);
+        let v = b.seq(s);
+        let cow1 = b.cow(strt);
+        let cow2 = b.cow(cow1);
+        b.set(s, &["q", "Heapy"], json!([]), json!({"composite": {"fields": [
+            jfield(Some("map"), m, "BTreeMap<u8, String>"),
+            jfield(Some("set"), set, "BTreeSet<u8>"),
+            jfield(Some("heap"), heap, "BinaryHeap<u8>"),
+            jfield(Some("deque"), dq, "VecDeque<u8>"),
+            jfield(Some("list"), ll, "LinkedList<u8>"),
+            jfield(Some("kids"), v, "Vec<Heapy>"),
+            jfield(Some("name"), strt, "String"),
+            jfield(Some("boxed"), u8t, "Box<u8>"),
+            jfield(Some("cow"), cow2, "Cow<'static, Cow<'static, str>>"),
+        ]}}), &["every heap-allocated prelude type", "and Vec, String, Box, Cow"]);
+        out.push(("prelude-min".to_string(), json!({"types": b.types})));
+    }
+    out
+}
